@@ -42,13 +42,25 @@ def distinct_sample(rng, pool, k):
     return rng.sample(pool, k)
 
 
-def gen_base(rng, tier, regime=None, nd=None, with_subs=None):
-    """a field configuration: anisotropic mesh (pairwise distinct n and cells), non-uniform data"""
+def gen_base(rng, tier, regime=None, nd=None, with_subs=None, ctype=None):
+    """a field configuration: anisotropic mesh (pairwise distinct n and cells), non-uniform data.
+    ctype: how corner coordinates are handed to Region: 'float' | 'int' (Python ints) |
+    'int64' (integer numpy arrays) - integer-typed regions keep an integer pmin/pmax dtype"""
     nd = nd or rng.choice([2, 2, 3, 3, 3, 4])
+    ctype = ctype or rng.choice(["float", "float", "int", "int64"])
     regime = regime or rng.choice(["exact", "exact", "exact", "scale"])
+    if ctype != "float":
+        regime = "exact"
     nmax = {2: 6, 3: 5, 4: 4}[nd] + (1 if tier == "thorough" else 0)
     n = distinct_sample(rng, list(range(1, nmax + 1)), nd)
-    if regime == "exact":
+    if ctype != "float":
+        # integer corners; integer cells of both parities, so that edges of different parity occur
+        # (images about the default centre or a fractional reference are half-integers)
+        cells = distinct_sample(rng, [F(1), F(2), F(3), F(4), F(5), F(7)], nd)
+        lo = [F(rng.randint(-16, 16)) for _ in range(nd)]
+        hi = [l + k * c for l, k, c in zip(lo, n, cells)]
+        flo, fhi = [float(x) for x in lo], [float(x) for x in hi]
+    elif regime == "exact":
         cells = distinct_sample(rng, [F(1, 4), F(1, 2), F(3, 4), F(1), F(5, 4), F(3, 2), F(2), F(3), F(5, 2)], nd)
         lo = [F(rng.randint(-64, 64), 4) for _ in range(nd)]
         hi = [l + k * c for l, k, c in zip(lo, n, cells)]
@@ -105,7 +117,9 @@ def gen_base(rng, tier, regime=None, nd=None, with_subs=None):
         vdims = ["s"]
     return dict(regime=regime, pmin=[S(x) for x in flo], pmax=[S(x) for x in fhi], n=n, dims=dims, units=units,
                 subs=subs, nvdim=nvdim, dtype=dtype, vals=[S(v) for v in vals], valid=valid, vdims=vdims,
-                dims_repr=rng.choice(REPRS), units_repr=rng.choice(REPRS), vdims_repr=rng.choice(REPRS))
+                dims_repr=rng.choice(REPRS), units_repr=rng.choice(REPRS), vdims_repr=rng.choice(REPRS),
+                ctype=ctype, sub_ctype=(ctype if (ctype == "float" or rng.random() < 0.6)
+                                      else rng.choice(["float", "int", "int64"])))
 
 
 def eff_dims(base):
@@ -202,7 +216,12 @@ def make_case(rng, base, level, inplace, a, b, k, refkind, mapkind):
     if has_subs and ref is not None and max(abs(fl(x)) for x in ref) > 40:
         ref = None
         refkind = "none"
-    c.update(ref_repr=rng.choice(REPRS), k_bool=bool(k in (0, 1) and rng.random() < 0.5))
+    c.update(ref_repr=rng.choice(REPRS), k_bool=bool(k in (0, 1) and rng.random() < 0.5),
+             ref_num=rng.choice(["float", "float", "mixed", "npscalar"]))
+    if ref is not None and base.get("ctype", "float") != "float" and rng.random() < 0.25:
+        # an integer reference point on an integer-typed region
+        ref = [S(round(F(x))) for x in ref]
+        c["ref_num"] = "int"
     c.update(level=level, inplace=inplace, a=a, b=b, k=k, ref=ref, refkind=refkind, mapkind=mapkind,
              vmap=gen_mapping(rng, base, a, b, mapkind) if level == "field" else None)
     return c
@@ -276,14 +295,39 @@ def as_repr(xs, kind):
     return list(xs)
 
 
-def build_region(c, pmin=None, pmax=None):
-    return df.Region(p1=[fl(x) for x in (pmin or c["pmin"])], p2=[fl(x) for x in (pmax or c["pmax"])],
+def corners(xs, ctype):
+    if ctype == "int":
+        return [int(F(x)) for x in xs]
+    if ctype == "int64":
+        return np.array([int(F(x)) for x in xs], dtype=np.int64)
+    return [fl(x) for x in xs]
+
+
+def num_ref(xs, kind):
+    """the reference point with its numbers as floats / ints / a mix / numpy scalars"""
+    out = []
+    for x in xs:
+        f = F(x)
+        if kind == "int" and f.denominator == 1:
+            out.append(int(f))
+        elif kind == "mixed":
+            out.append(int(f) if f.denominator == 1 else float(f))
+        elif kind == "npscalar":
+            out.append(np.int64(int(f)) if f.denominator == 1 else np.float64(float(f)))
+        else:
+            out.append(float(f))
+    return out
+
+
+def build_region(c, pmin=None, pmax=None, ctype=None):
+    ctype = ctype or c.get("ctype", "float")
+    return df.Region(p1=corners(pmin or c["pmin"], ctype), p2=corners(pmax or c["pmax"], ctype),
                      dims=as_repr(c["dims"], c.get("dims_repr")), units=as_repr(c["units"], c.get("units_repr")))
 
 
 def build_mesh(c):
     r = build_region(c)
-    subs = {name: build_region(c, lo, hi) for name, lo, hi in c["subs"]}
+    subs = {name: build_region(c, lo, hi, ctype=c.get("sub_ctype", "float")) for name, lo, hi in c["subs"]}
     return df.Mesh(region=r, n=c["n"], subregions=subs)
 
 
@@ -307,7 +351,7 @@ def build(c, level=None):
 
 
 def call(obj, c, inplace, k=None):
-    ref = None if c["ref"] is None else as_repr([fl(x) for x in c["ref"]], c.get("ref_repr"))
+    ref = None if c["ref"] is None else as_repr(num_ref(c["ref"], c.get("ref_num", "float")), c.get("ref_repr"))
     if k is None:
         k = bool(c["k"]) if c.get("k_bool") else c["k"]      # True / False are the integers 1 / 0
     return obj.rotate90(c["a"], c["b"], k=k, reference_point=ref, inplace=inplace)
@@ -603,7 +647,7 @@ def run_case(c):
     key = (f'{level}/{c["inplace"]}/{nd}/{dims0.index(c["a"]) if c["a"] in dims0 else -1}'
            f'{dims0.index(c["b"]) if c["b"] in dims0 else -1}/{k % 4}/{"neg" if k < 0 else "pos"}/{refk}/'
            f'{c.get("mapkind") if level == "field" else ""}/{c["dtype"] if level == "field" else ""}/'
-           f'{c["regime"]}/{bool(c["subs"])}/{c.get("bad")}/{st}')
+           f'{c["regime"]}/{c.get("ctype")}/{bool(c["subs"])}/{c.get("bad")}/{st}')
     if bool_refused:
         coq = None
     rec.update(obs=js(obs), coq=coq, key=key,
@@ -628,4 +672,8 @@ def stats(records):
         out["inplace"] += int(c["inplace"])
         out["negative_k"] += int(c["k"] < 0)
         out["default_reference"] += int(c["ref"] is None)
+        out["integer_corners"] = out.get("integer_corners", 0) + int(c.get("ctype", "float") != "float")
+        out["integer_corners_fractional_ref"] = out.get("integer_corners_fractional_ref", 0) + int(
+            c.get("ctype", "float") != "float" and c["ref"] is not None
+            and any(F(x).denominator != 1 for x in c["ref"]))
     return out
